@@ -9,6 +9,7 @@ GLOBAL_ASSUMPTIONS = [
 OUTSIDE = {}
 ROTATE_K = {}
 MIN_DECIDED = {}
+JOBS = {"C06": 8, "C07": 8}
 
 H = {}
 
@@ -19,17 +20,17 @@ def add(name, props, tier="quick", timeout=600, est=10, **kw):
 
 # ---------------------------------------------------------------- C12
 for n in ["set_flags", "set_opcode", "set_rcode", "set_response", "set_tid", "getters"]:
-    add("c12_" + n, ["C12"], timeout=300, est=3,
+    add("c12_" + n, ["C12"], timeout=300, est=3, path="registry::h_c12::proofs::",
         funcs=["ParsedPacket::" + n if n != "getters" else "ParsedPacket::{tid,opcode,rcode,is_response,flags,dnssec}"],
         bound="all 2^96 12-byte headers x all argument values x ext_flags in {None, Some(any u16)}: the whole quantifier of the property",
         )
 OUTSIDE["C12"] = "nothing within the statement: the header word, the id, the counts and every setter argument are fully symbolic"
 
 # ---------------------------------------------------------------- names (C01, C02, C18)
-add("names_cc_8", ["C01", "C02", "C18"], timeout=900, est=100, mem_gb=12,
+add("names_cc_8", ["C01", "C02", "C18"], timeout=900, est=100, mem_gb=12, path="registry::h_names::proofs::",
     funcs=["Compress::check_compressed_name"],
     bound="every buffer of length <= 8 (all bytes symbolic, length symbolic) x every usize offset; unwind 10")
-add("names_cu_12", ["C01", "C02", "C18"], timeout=600, est=20,
+add("names_cu_12", ["C01", "C02", "C18"], timeout=600, est=20, path="registry::h_names::proofs::",
     funcs=["DNSSector::check_uncompressed_name"],
     bound="every buffer of length <= 12 x every usize offset; unwind 14")
 
